@@ -328,6 +328,14 @@ def run(ctx):
     hook.persistent = t.chance(1, 3, "the-fault-persists")
     custom_args = {}
     FILE_HOOK[0] = hook
+    # the output folder handed to the generator may not exist yet (textX refuses that: nothing is generated; an
+    # implementation that creates the folder has to clean up in it just the same)
+    missing_folder = t.chance(1, 6, "output-folder-does-not-exist")
+    real_outdir = outdir
+    if missing_folder:
+        outdir = os.path.join(outdir, "fresh", "sub")
+    nested = False
+    inner_out = None
     try:
         mm = metamodel_from_str(gtext, file_name="/sim/w6/lang.tx")
         if which == "model-dot-multi":
@@ -353,6 +361,11 @@ def run(ctx):
             nchunks = 1 + t.draw(6, "nchunks")
             model = mm.model_from_str("r0 o0 " + _vals(mm, 0) + " ;")
             model._tx_filename = "/sim/w6/input.m"
+            # the generator may call another registered generator (which writes through gen_file() itself) from
+            # inside its own callback: two output files, the clean-up has to pick the right one
+            nested = t.chance(1, 3, "generator-calls-another-generator")
+            if nested:
+                inner_out = os.path.join(outdir, "input.dot")
 
             def user_generator(metamodel, model, output_path, overwrite, debug, **custom):
                 output_file = get_output_filename(model._tx_filename, output_path, "txt")
@@ -363,6 +376,8 @@ def run(ctx):
                             f.write(f"chunk {i} of {nchunks}\n")
                             if i % 2:
                                 f.flush()
+                            if nested and i == 0:
+                                generator_for_language_target("any", "dot")(metamodel, model, output_path, overwrite, debug)
                         f.write("END\n")
 
                 gen_file(model._tx_filename, output_file, write_it, overwrite)
@@ -397,13 +412,34 @@ def run(ctx):
             gen(*args, overwrite, debug, **custom_args)
 
         # ---- census
-        call(False)
+        if missing_folder:
+            out = out.replace(real_outdir, outdir, 1) if not out.startswith(outdir) else out
+        try:
+            call(False)
+        except FileNotFoundError:
+            left = [os.path.join(r_, f) for r_, _, fs in os.walk(real_outdir) for f in fs]
+            if missing_folder and not left:
+                # refused: the folder does not exist, nothing was generated, nothing is left behind
+                ctx.ev("missing-output-folder-refused")
+                ctx.probe("missing-output-folder-refused")
+                ctx.nontrivial = True
+                ctx.sig = [which, "missing-folder-refused"]
+                return
+            raise
         n = hook.nwrites
-        if hook.nopens != 1 or n < 1 or not os.path.exists(out):
+        want_opens = 2 if nested else 1
+        if hook.nopens != want_opens or n < 1 or not os.path.exists(out) or (nested and not os.path.exists(inner_out)):
             ctx.violate("C31", "census", which, f"fault-free generation: opens={hook.nopens} writes={n}")
             return
         ref = read(out)
         os.remove(out)
+        ref_inner = None
+        if nested:
+            ref_inner = read(inner_out)
+            os.remove(inner_out)
+            ctx.probe("generator-calling-another-generator")
+        if missing_folder:
+            ctx.probe("output-folder-created-by-the-generator")
         ctx.sample["writes"] = n
         ctx.sample["bytes"] = len(ref)
         # ---- enumerate every crash point
@@ -420,6 +456,8 @@ def run(ctx):
         for plan in points:
             if os.path.exists(out):
                 os.remove(out)
+            if nested and os.path.exists(inner_out):
+                os.remove(inner_out)
             if preexisting:
                 from ..seams import real_open
                 with real_open(out, "w", encoding="utf-8") as f:
@@ -441,14 +479,23 @@ def run(ctx):
             if not failed:
                 ctx.violate("C31", "fault-swallowed", cls, f"injected {plan} did not make the generator fail")
                 continue
-            stray = sorted(x for x in os.listdir(outdir) if os.path.join(outdir, x) != out)
+            stray = []
+            for r_, _, fs in os.walk(real_outdir):
+                for f_ in fs:
+                    fp = os.path.join(r_, f_)
+                    if fp == out:
+                        continue
+                    if nested and fp == inner_out and read(fp) == ref_inner:
+                        continue  # the inner generator finished its own file before the outer one failed
+                    stray.append(os.path.relpath(fp, real_outdir))
+            stray.sort()
             if stray:
                 # e.g. a temporary file of a write-then-rename scheme that was not removed: a partial output file too
                 ctx.violate("C31", "partial-file-left", cls + "/stray-file",
                             f"after {plan[1]} at operation {plan[0]} the output directory holds {stray} besides the "
                             f"expected output file")
                 for x in stray:
-                    os.remove(os.path.join(outdir, x))
+                    os.remove(os.path.join(real_outdir, x))
             if os.path.exists(out):
                 content = read(out)
                 if content not in complete:
@@ -461,6 +508,8 @@ def run(ctx):
             except FAILURES as e:
                 ctx.violate("C31", "rerun-fails", cls, f"fault-free rerun failed: {e}")
                 continue
+            if nested and (not os.path.exists(inner_out) or read(inner_out) != ref_inner):
+                ctx.violate("C31", "rerun-completes", cls + "/inner", "fault-free rerun left no complete output of the inner generator")
             if not os.path.exists(out):
                 ctx.violate("C31", "rerun-completes", cls, "fault-free rerun left no output file")
             else:
@@ -470,10 +519,10 @@ def run(ctx):
                                 f"a later run without --overwrite kept a truncated file ({len(content)} of {len(ref)} bytes)")
         ctx.nontrivial = True
         ctx.stats["steps"] += len(points)
-        ctx.sig = [which, nrules, n, len(ref), preexisting, buffered, hook.exc_mode, debug]
+        ctx.sig = [which, nrules, n, len(ref), preexisting, buffered, hook.exc_mode, debug, missing_folder, nested]
     finally:
         FILE_HOOK[0] = None
-        shutil.rmtree(outdir, ignore_errors=True)
+        shutil.rmtree(real_outdir, ignore_errors=True)
 
 
 def _vals(mm, i):
